@@ -56,6 +56,8 @@ def gen_init(rng, nv, maxg, ops):
         opt = []
     else:
         opt = sorted(v for v in vs if rng.random() < 0.4)
+        if rng.random() < 0.15:
+            opt.append("w")          # a name of neither contract
     return {"op": op, "c1": c1, "c2": c2, "opt": opt, "simp": True if op == "merge" else rng.random() < 0.5}
 
 
